@@ -10,6 +10,7 @@
 // Output: <id>|G:<value>|B:..|N:..|S:..|F:..|L:..      value = b:0/1, n:hex64|nan, s:u:.., ns:ids, err:<class>
 #include "common.hpp"
 #include <map>
+#include <stdexcept>
 #include <xercesc/framework/MemBufInputSource.hpp>
 #include <xercesc/sax/SAXParseException.hpp>
 #include <xalanc/XalanDOM/XalanDocument.hpp>
@@ -55,7 +56,9 @@ public:
     {
         std::string k = narrow(name.getNamespace()) + "}" + narrow(name.getLocalPart());
         if (m_vars) { VarMap::const_iterator i = m_vars->find(k); if (i != m_vars->end()) return i->second; }
-        return XPathExecutionContextDefault::getVariable(name);
+        // a reference to a variable that is not bound is an error (as in a stylesheet); the stock
+        // context would hand back an "unknown" object that converts silently
+        throw std::runtime_error("unbound-variable");
     }
 };
 
